@@ -10,6 +10,8 @@
 (*      ("bin": one Binary parameter without the raw marker; "tn": three   *)
 (*       parameters named gas_limit, msg, id)                              *)
 (*   data: "none" | "plain" | "opt" | "raw" | "rawopt" | "inst" | "instopt" *)
+(*         | "plainO" (the mandatory typed mode, `#[sv::data]`, on a       *)
+(*           parameter of type Option<T>: still mandatory)                 *)
 (*         (only meaningful on a success method)                           *)
 (* A reply program: [id, methods]                                          *)
 (***************************************************************************)
@@ -85,7 +87,7 @@ Extract(mode, class) ==
     CASE mode = "none"    -> {"nodata"}
       [] mode = "raw"     -> IF class = "absent" THEN {"missing"} ELSE {"value"}
       [] mode = "rawopt"  -> IF class = "absent" THEN {"none"} ELSE {"value"}
-      [] mode \in {"plain", "opt"} ->
+      [] mode \in {"plain", "opt", "plainO"} ->
             CASE class = "absent"    -> IF mode = "opt" THEN {"none"} ELSE {"missing"}
               [] class = "good"      -> {"value"}
               [] class = "empty_env" -> IF mode = "opt" THEN {"none", "missing"} ELSE {"missing"}
